@@ -154,6 +154,9 @@ def schedule {α : Type} (D : Dom α) (coll algo : String) (np root c m : Nat) :
     let blocks := ranks.map fun r => chunks blk np (pat D r C)
     let x := fun r b => (blocks.getD r []).getD b []
     some (ranks.map fun r => (allSome (ranks.map (allreduceLr (zipOp D.op) x np r))).map List.flatten)
+  | "alltoall", "ring" =>
+    let blocks := ranks.map fun r => chunks C np (pat D r (np * C))
+    some (ranks.map fun r => (allSome (alltoallRing blocks r)).map List.flatten)
   | "alltoall", "pair" =>
     let blocks := ranks.map fun r => chunks C np (pat D r (np * C))
     allSome (ranks.map fun r => (alltoallPair blocks r).map fun slots => (allSome slots).map List.flatten)
@@ -163,7 +166,7 @@ def schedule {α : Type} (D : Dom α) (coll algo : String) (np root c m : Nat) :
 variant, which never runs the selected algorithm) -/
 def hasSchedule (coll algo : String) (nb : Bool) (np c : Nat) : Bool :=
   !nb && ((coll, algo) ∈ [("bcast", "binomial_tree"), ("bcast", "default"), ("allreduce", "rdb"), ("allgather", "ring"),
-    ("allgather", "bruck"), ("alltoall", "pair"), ("reduce", "flat_tree"), ("reduce", "binomial")] ||
+    ("allgather", "bruck"), ("alltoall", "pair"), ("alltoall", "ring"), ("reduce", "flat_tree"), ("reduce", "binomial")] ||
     -- allreduce-lr.cpp hands counts < np and the remainder of counts that np does not divide to other algorithms
     ((coll, algo) == ("allreduce", "lr") && np != 0 && c >= np && c % np == 0))
 
